@@ -147,6 +147,13 @@ def rule_process_data(ctx, f):
     dec = [m for m in f.walk() if m.k in ("CompoundAssignOperator",) and m.op == "-=" and key(m.c[0], True) == "more_events"]
     ok = len(dec) == 1 and key(dec[0].c[1].strip(), True) == "event_increment"
     ctx.ob("C14.d-increment", f.qn, "budget-decrement", ok, f.where(), "more_events -= event_increment" if ok else "event budget not decreased by the increment that is stored")
+    # the budget counts every accepted event, whether or not its segment / TOF bin is in the batch currently in memory:
+    # otherwise each pass stops at a different point of the stream and the result depends on the batch sizes
+    if len(dec) == 1:
+        fd = cfg.facts_at(dec[0])
+        Bd = Bounds(relations(fd))
+        in_batch = [c for c in (seg, tof) if any(a == c and op in (">=", "<=", ">", "<") and b in (localkey("start_segment_index"), localkey("end_segment_index"), localkey("start_timing_pos_index"), localkey("end_timing_pos_index")) for a, op, b in Bd.rels)]
+        ctx.ob("C14.d-increment", f.qn, "budget-independent-of-batch", not in_batch, dec[0].where(), "the event budget is decreased for every accepted event, independent of the batch in memory" if not in_batch else "the event budget is only decreased when %s lies in the batch in memory: passes stop at different events" % [c.split(".")[-1] for c in in_batch])
     # ---- b: rewind
     rew = [c for c in f.calls() if (c.callee or "").endswith("::set_get_position")]
     sav = [c for c in f.calls() if (c.callee or "").endswith("::save_get_position")]
